@@ -2,40 +2,45 @@ import CollectionsC.Proofs.PQueue
 /-! # C10 — CC_PQueue always yields a maximal element and conserves its contents
 
 Statements only (helpers in `Proofs/PQueue.lean`).  The concrete model `CC.PQueue`
-(`Model/PQueue.lean`) has the fields `size`, `capacity`, `buffer` of `struct cc_pqueue_s`; the
-sift-up loop of `cc_pqueue_push` and the recursive `cc_pqueue_heapify` are written with the index
-macros generated from the C source (`CC.Gen.ccParent/ccLeft/ccRight`).  The abstract spec
-`CC.Spec.PQ` is a multiset of elements with `top`/`pop` specified as relations: any maximal element
-is admissible (ties in any order).
+(`Model/PQueue.lean`) has the fields `size`, `capacity`, `buffer` of `struct cc_pqueue_s` and the
+allocator triple it was configured with; the sift-up loop of `cc_pqueue_push` and the recursive
+`cc_pqueue_heapify` are written with the index macros generated from the C source
+(`CC.Gen.ccParent/ccLeft/ccRight`).  The abstract spec `CC.Spec.PQ` is a multiset of elements with
+`top`/`pop` specified as relations: any maximal element is admissible (ties in any order).
 
 Quantifiers: every comparator `cmp` that is a total preorder (`Spec.TotalPreorder`: duplicates and
-ties between distinguishable elements included), every element value, every capacity ≥ 1, every
-growth law `grow` with `GrowOk` (the driver instantiates `grow c = (size_t)((float)c * exp_factor)`),
-every interleaving of push/top/pop, every allocator schedule.
+ties between distinguishable elements included), every element value, every capacity ≥ 1 the
+constructor accepts, **every** growth law `grow : ℕ → ℕ` (the driver instantiates
+`grow c = (size_t)((float)c * exp_factor)`; no assumption on it is needed: a result that is too
+small falls back to `capacity + 1`, one that is too large is answered with `CC_ERR_MAX_CAPACITY`),
+every interleaving of push/top/pop, every allocator schedule, both allocator triples.
 
-Documented preconditions: `TotalPreorder cmp` (the comparator contract), `GrowOk grow` (the float
-product converted to `size_t` stays ≤ `CC_MAX_ELEMENTS`; beyond that the C conversion is undefined),
-and the queue's two blocks are live in the ledger (`2 ≤ m.live`). -/
+Documented preconditions: `TotalPreorder cmp` (the comparator contract) and ledger consistency: the
+queue's two blocks are live in the ledger of its triple (`2 ≤ m.liveT q.triple`; the constructor
+establishes it, every step preserves it). -/
 namespace CC.Properties.C10
 open CC CC.Spec
 open CC.Spec.PQ (Op Out IsMax Step Run pushed popped)
 
 /-- One step of the concrete model is an admissible step of the multiset spec, keeps the
-invariant (heap order, `size ≤ capacity = buffer length`), keeps the ledger balanced and touches no
-slot outside the buffer.  For `push` this includes *atomicity*: when the growth is refused the
-status is `CC_ERR_ALLOC` and the multiset is unchanged. -/
-theorem step_refines {cmp : Nat → Nat → Int} (tp : TotalPreorder cmp) (grow : Nat → Nat) (hg : PQueue.GrowOk grow)
-    (q : PQueue) (op : Op) (m : Mem) (h : PQueue.Inv' cmp q) (hl : 2 ≤ m.live) :
+invariant (heap order, `size ≤ capacity = buffer length`, representable byte size) and the triple,
+keeps the ledger balanced and touches no slot outside the buffer.  For `push` this includes
+*atomicity*: when the growth is refused the status is `CC_ERR_ALLOC` and the multiset is unchanged.
+(`push_status_iff` says exactly when a push is blocked.) -/
+theorem step_refines {cmp : Nat → Nat → Int} (tp : TotalPreorder cmp) (grow : Nat → Nat)
+    (q : PQueue) (op : Op) (m : Mem) (h : PQueue.Inv' cmp q) (hl : 2 ≤ m.liveT q.triple) :
     Step cmp q.abs op (PQueue.step cmp grow q op m).1 (PQueue.step cmp grow q op m).2.1.abs ∧
-    PQueue.Inv' cmp (PQueue.step cmp grow q op m).2.1 ∧
-    (PQueue.step cmp grow q op m).2.2.live = m.live ∧ (PQueue.step cmp grow q op m).2.2.fault = m.fault := by
+    PQueue.Inv' cmp (PQueue.step cmp grow q op m).2.1 ∧ (PQueue.step cmp grow q op m).2.1.triple = q.triple ∧
+    (PQueue.step cmp grow q op m).2.2.liveT q.triple = m.liveT q.triple ∧
+    (PQueue.step cmp grow q op m).2.2.fault = m.fault := by
+  have htr := PQueue.step_triple cmp grow q op m
   cases op with
   | push x =>
-    have hm := PQueue.push_mem tp grow hg q x m h (by omega)
-    rcases PQueue.push_spec tp grow hg q x m h (by omega) with ⟨e1, e2, e3, _⟩ | ⟨e1, e2⟩
-    · refine ⟨Or.inl ⟨?_, e3⟩, e2, hm.1, hm.2⟩
+    have hm := PQueue.push_mem tp grow q x m h (by omega)
+    rcases PQueue.push_spec tp grow q x m h (by omega) with ⟨e1, e2, e3, _⟩ | ⟨e1, e2⟩
+    · refine ⟨Or.inl ⟨?_, e3⟩, e2, htr, hm.1, hm.2⟩
       simp only [PQueue.step, e1]
-    · refine ⟨Or.inr ⟨?_, ?_⟩, ?_, hm.1, hm.2⟩
+    · refine ⟨Or.inr ⟨?_, ?_⟩, ?_, htr, hm.1, hm.2⟩
       · rcases e1 with ⟨e1, _⟩ | e1
         · left; simp only [PQueue.step, e1]
         · right; simp only [PQueue.step, e1]
@@ -44,77 +49,77 @@ theorem step_refines {cmp : Nat → Nat → Int} (tp : TotalPreorder cmp) (grow 
   | top =>
     rcases PQueue.top_spec tp q m h with ⟨e1, e2⟩ | ⟨x, e1, e2⟩
     · simp only [PQueue.step, e2]
-      exact ⟨⟨List.Perm.refl _, Or.inl ⟨e1, by first | rfl | trivial⟩⟩, h, by first | rfl | trivial, by first | rfl | trivial⟩
+      exact ⟨⟨List.Perm.refl _, Or.inl ⟨e1, by first | rfl | trivial⟩⟩, h, by first | rfl | trivial, by first | rfl | trivial, by first | rfl | trivial⟩
     · simp only [PQueue.step, e1]
-      exact ⟨⟨List.Perm.refl _, Or.inr ⟨x, by first | rfl | trivial, e2⟩⟩, h, by first | rfl | trivial, by first | rfl | trivial⟩
+      exact ⟨⟨List.Perm.refl _, Or.inr ⟨x, by first | rfl | trivial, e2⟩⟩, h, by first | rfl | trivial, by first | rfl | trivial, by first | rfl | trivial⟩
   | pop =>
     rcases PQueue.pop_spec tp q m h with ⟨e1, e2⟩ | ⟨x, e1, e2, e3, e4, e5, _, e7⟩
     · simp only [PQueue.step, e2]
-      exact ⟨Or.inl ⟨e1, by first | rfl | trivial, e1⟩, h, by first | rfl | trivial, by first | rfl | trivial⟩
-    · refine ⟨Or.inr ⟨x, ?_, e3, e4⟩, e5, by simp only [PQueue.step, e7], by simp only [PQueue.step, e7]⟩
+      exact ⟨Or.inl ⟨e1, by first | rfl | trivial, e1⟩, h, by first | rfl | trivial, by first | rfl | trivial, by first | rfl | trivial⟩
+    · refine ⟨Or.inr ⟨x, ?_, e3, e4⟩, e5, htr, by simp only [PQueue.step, e7], by simp only [PQueue.step, e7]⟩
       simp only [PQueue.step, e1, e2]
 
 /-- **C10, all histories.** From any state satisfying the invariant, the outputs of every history
 are an admissible run of the multiset spec ending in the multiset the final state holds; the
-invariant holds at the end, the ledger is balanced and nothing faulted. -/
-theorem history_refines {cmp : Nat → Nat → Int} (tp : TotalPreorder cmp) (grow : Nat → Nat) (hg : PQueue.GrowOk grow)
-    (ops : List Op) (q : PQueue) (m : Mem) (h : PQueue.Inv' cmp q) (hl : 2 ≤ m.live) :
+invariant holds at the end, the ledger is balanced and nothing faulted — for every schedule. -/
+theorem history_refines {cmp : Nat → Nat → Int} (tp : TotalPreorder cmp) (grow : Nat → Nat)
+    (ops : List Op) (q : PQueue) (m : Mem) (h : PQueue.Inv' cmp q) (hl : 2 ≤ m.liveT q.triple) :
     Run cmp q.abs ops (PQueue.run cmp grow q ops m).1 (PQueue.run cmp grow q ops m).2.1.abs ∧
-    PQueue.Inv' cmp (PQueue.run cmp grow q ops m).2.1 ∧
-    (PQueue.run cmp grow q ops m).2.2.live = m.live ∧ (PQueue.run cmp grow q ops m).2.2.fault = m.fault := by
+    PQueue.Inv' cmp (PQueue.run cmp grow q ops m).2.1 ∧ (PQueue.run cmp grow q ops m).2.1.triple = q.triple ∧
+    (PQueue.run cmp grow q ops m).2.2.liveT q.triple = m.liveT q.triple ∧
+    (PQueue.run cmp grow q ops m).2.2.fault = m.fault := by
   induction ops generalizing q m with
-  | nil => exact ⟨⟨rfl, rfl⟩, h, rfl, rfl⟩
+  | nil => exact ⟨⟨rfl, rfl⟩, h, rfl, rfl, rfl⟩
   | cons op ops ih =>
-    obtain ⟨h1, h2, h3, h4⟩ := step_refines tp grow hg q op m h hl
-    have ih' := ih (PQueue.step cmp grow q op m).2.1 (PQueue.step cmp grow q op m).2.2 h2 (by omega)
+    obtain ⟨h1, h2, ht, h3, h4⟩ := step_refines tp grow q op m h hl
+    have ih' := ih (PQueue.step cmp grow q op m).2.1 (PQueue.step cmp grow q op m).2.2 h2 (by rw [ht]; omega)
+    rw [ht] at ih'
     simp only [PQueue.run]
-    refine ⟨⟨_, _, _, rfl, h1, ih'.1⟩, ih'.2.1, by rw [ih'.2.2.1, h3], by rw [ih'.2.2.2, h4]⟩
+    refine ⟨⟨_, _, _, rfl, h1, ih'.1⟩, ih'.2.1, ih'.2.2.1, by rw [ih'.2.2.2.1, h3], by rw [ih'.2.2.2.2, h4]⟩
 
-/-- **C10 from the constructor**: any capacity ≥ 1 accepted by `cc_pqueue_new_conf`, any history.
-(`hex`: the effective expansion factor is ≥ 0 — it is > 1 by construction.) -/
-theorem new_history_refines {cmp : Nat → Nat → Int} (tp : TotalPreorder cmp) (grow : Nat → Nat) (hg : PQueue.GrowOk grow)
-    (cap : Nat) (exGe : Nat → Bool) (hex : exGe 0 = true) (m0 : Mem) (q0 : PQueue)
-    (hnew : (PQueue.new cap exGe m0).2.1 = some q0) (ops : List Op) :
-    let m1 := (PQueue.new cap exGe m0).2.2
+/-- **C10 from the constructor**: any capacity ≥ 1 accepted by `cc_pqueue_new_conf` (triple `.conf`)
+or `cc_pqueue_new` (triple `.libc`), any history; afterwards `destroy` returns the ledger of the
+queue's triple to where it started. -/
+theorem new_history_refines {cmp : Nat → Nat → Int} (tp : TotalPreorder cmp) (grow : Nat → Nat)
+    (cap : Nat) (exGe : Nat → Bool) (t : Triple) (m0 : Mem) (q0 : PQueue)
+    (hnew : (PQueue.new cap exGe t m0).2.1 = some q0) (ops : List Op) :
+    let m1 := (PQueue.new cap exGe t m0).2.2
     Run cmp [] ops (PQueue.run cmp grow q0 ops m1).1 (PQueue.run cmp grow q0 ops m1).2.1.abs ∧
     PQueue.Inv' cmp (PQueue.run cmp grow q0 ops m1).2.1 ∧
-    ((PQueue.run cmp grow q0 ops m1).2.1.destroy (PQueue.run cmp grow q0 ops m1).2.2).live = m0.live ∧
+    ((PQueue.run cmp grow q0 ops m1).2.1.destroy (PQueue.run cmp grow q0 ops m1).2.2).liveT t = m0.liveT t ∧
     ((PQueue.run cmp grow q0 ops m1).2.1.destroy (PQueue.run cmp grow q0 ops m1).2.2).fault = m0.fault := by
   intro m1
-  rcases PQueue.new_spec cmp cap exGe m0 hex with ⟨_, e, _⟩ | ⟨_, e, _⟩ | ⟨q, _, e, hinv, habs, _, hlive, hfault⟩
+  rcases PQueue.new_spec cmp cap exGe t m0 with ⟨_, e, _⟩ | ⟨_, e, _⟩ | ⟨q, _, e, hinv, habs, _, htr, hlive, hfault, _⟩
   · rw [e] at hnew; cases hnew
   · rw [e] at hnew; cases hnew
   · rw [e] at hnew
     have hq : q = q0 := Option.some.inj hnew
     subst hq
-    have hh := history_refines tp grow hg ops q m1 hinv (by simp only [m1]; omega)
-    rw [habs] at hh
+    have hh := history_refines tp grow ops q m1 hinv (by rw [htr]; simp only [m1]; omega)
+    rw [habs, htr] at hh
+    have hl2 : 2 ≤ (PQueue.run cmp grow q ops m1).2.2.liveT t := by rw [hh.2.2.2.1]; simp only [m1]; omega
+    have f1 := Mem.freeT_pos (PQueue.run cmp grow q ops m1).2.2 t (by omega)
+    have f2 := Mem.freeT_pos ((PQueue.run cmp grow q ops m1).2.2.freeT t) t (by rw [f1.1]; omega)
     refine ⟨hh.1, hh.2.1, ?_, ?_⟩
-    · have hl2 : 2 ≤ (PQueue.run cmp grow q ops m1).2.2.live := by rw [hh.2.2.1]; simp only [m1]; omega
-      have f1 := PQueue.free_live' (PQueue.run cmp grow q ops m1).2.2 (by omega)
-      have f2 := PQueue.free_live' (PQueue.run cmp grow q ops m1).2.2.free (by rw [f1.1]; omega)
-      simp only [PQueue.destroy]
-      rw [f2.1, f1.1, hh.2.2.1]; simp only [m1]; omega
-    · have hl2 : 2 ≤ (PQueue.run cmp grow q ops m1).2.2.live := by rw [hh.2.2.1]; simp only [m1]; omega
-      have f1 := PQueue.free_live' (PQueue.run cmp grow q ops m1).2.2 (by omega)
-      have f2 := PQueue.free_live' (PQueue.run cmp grow q ops m1).2.2.free (by rw [f1.1]; omega)
-      simp only [PQueue.destroy]
-      rw [f2.2, f1.2, hh.2.2.2]; exact hfault
+    · simp only [PQueue.destroy, hh.2.2.1]
+      rw [f2.1, f1.1, hh.2.2.2.1]; simp only [m1]; omega
+    · simp only [PQueue.destroy, hh.2.2.1]
+      rw [f2.2.1, f1.2.1, hh.2.2.2.2]; exact hfault
 
 /-- a refused constructor (or an invalid capacity) yields no queue and a balanced ledger -/
-theorem new_refused (cmp : Nat → Nat → Int) (cap : Nat) (exGe : Nat → Bool) (m : Mem) (hex : exGe 0 = true)
-    (h : (PQueue.new cap exGe m).1 ≠ .ok) :
-    (PQueue.new cap exGe m).2.1 = none ∧ (PQueue.new cap exGe m).2.2.live = m.live ∧
-    (PQueue.new cap exGe m).2.2.fault = m.fault := by
-  rcases PQueue.new_spec cmp cap exGe m hex with ⟨_, e, em⟩ | ⟨_, e, e2, e3, _⟩ | ⟨q, e, _⟩
+theorem new_refused (cmp : Nat → Nat → Int) (cap : Nat) (exGe : Nat → Bool) (t : Triple) (m : Mem)
+    (h : (PQueue.new cap exGe t m).1 ≠ .ok) :
+    (PQueue.new cap exGe t m).2.1 = none ∧ (PQueue.new cap exGe t m).2.2.liveT t = m.liveT t ∧
+    (PQueue.new cap exGe t m).2.2.fault = m.fault := by
+  rcases PQueue.new_spec cmp cap exGe t m with ⟨_, e, em⟩ | ⟨_, e, e2, e3, _⟩ | ⟨q, e, _⟩
   · rw [em]; exact ⟨e, rfl, rfl⟩
   · exact ⟨e, e2, e3⟩
   · exact (h e).elim
 
 /-- an accepted capacity is ≥ 1 and its buffer size in bytes, `capacity * sizeof(void*)`, does not
 wrap around `size_t` (the constructor rejects larger capacities) -/
-theorem new_capacity_bytes (cap : Nat) (exGe : Nat → Bool) (m : Mem) (h : (PQueue.new cap exGe m).1 = .ok) :
-    0 < cap ∧ cap * PQueue.ptrSize < 2 ^ 64 := PQueue.new_ok_bytes cap exGe m h
+theorem new_capacity_bytes (cap : Nat) (exGe : Nat → Bool) (t : Triple) (m : Mem) (h : (PQueue.new cap exGe t m).1 = .ok) :
+    0 < cap ∧ cap * PQueue.ptrSize < 2 ^ 64 := PQueue.new_ok_bytes cap exGe t m h
 
 /-- a successful growth also keeps `capacity * sizeof(void*)` representable; a growth whose new
 capacity would not be is answered with `CC_ERR_MAX_CAPACITY` before anything is allocated
@@ -123,20 +128,87 @@ theorem growth_capacity_bytes (grow : Nat → Nat) (q : PQueue) (m : Mem)
     (h : (PQueue.expandCapacity grow q m).1 = .ok) :
     (PQueue.expandCapacity grow q m).2.1.capacity * PQueue.ptrSize < 2 ^ 64 := PQueue.expand_ok_bytes grow q m h
 
+/-- **When a push is blocked** (this pins down the error alternative that `Step` leaves open): in
+every state satisfying the invariant, push succeeds exactly when there is room or the queue may
+still grow (new capacity at most `CC_MAX_ELEMENTS / sizeof(void*)`) and the allocator grants the
+buffer; it reports `CC_ERR_MAX_CAPACITY` exactly when the queue is full and the new capacity would
+exceed that limit; and `CC_ERR_ALLOC` exactly when the queue is full, may grow, and the allocator
+refuses.  No other status exists. -/
+theorem push_status_iff {cmp : Nat → Nat → Int} (tp : TotalPreorder cmp) (grow : Nat → Nat)
+    (q : PQueue) (x : Nat) (m : Mem) (h : PQueue.Inv' cmp q) (hl : 2 ≤ m.liveT q.triple) :
+    ((PQueue.push cmp grow q x m).1 = .ok ↔
+      (q.size < q.capacity ∨
+        (PQueue.newCapacity grow q ≤ Gen.CC_MAX_ELEMENTS / PQueue.ptrSize ∧ (m.allocT q.triple).1 = true))) ∧
+    ((PQueue.push cmp grow q x m).1 = .errMaxCapacity ↔
+      (q.size = q.capacity ∧ PQueue.newCapacity grow q > Gen.CC_MAX_ELEMENTS / PQueue.ptrSize)) ∧
+    ((PQueue.push cmp grow q x m).1 = .errAlloc ↔
+      (q.size = q.capacity ∧ PQueue.newCapacity grow q ≤ Gen.CC_MAX_ELEMENTS / PQueue.ptrSize ∧
+        (m.allocT q.triple).1 = false)) :=
+  PQueue.push_status_iff tp grow q x m h (by omega)
+
+/-- … at history level: the characterisation holds in every state a history from the constructor
+reaches (so along a run, a push is blocked only by a refusal that fired or by the capacity limit) -/
+theorem reachable_push_status {cmp : Nat → Nat → Int} (tp : TotalPreorder cmp) (grow : Nat → Nat)
+    (cap : Nat) (exGe : Nat → Bool) (t : Triple) (m0 : Mem) (q0 : PQueue)
+    (hnew : (PQueue.new cap exGe t m0).2.1 = some q0) (ops : List Op) (x : Nat) :
+    let q := (PQueue.run cmp grow q0 ops (PQueue.new cap exGe t m0).2.2).2.1
+    let m := (PQueue.run cmp grow q0 ops (PQueue.new cap exGe t m0).2.2).2.2
+    ((PQueue.push cmp grow q x m).1 = .ok ↔
+      (q.size < q.capacity ∨
+        (PQueue.newCapacity grow q ≤ Gen.CC_MAX_ELEMENTS / PQueue.ptrSize ∧ (m.allocT q.triple).1 = true))) ∧
+    ((PQueue.push cmp grow q x m).1 ≠ .ok → (PQueue.push cmp grow q x m).2.1 = q) := by
+  intro q m
+  rcases PQueue.new_spec cmp cap exGe t m0 with ⟨_, e, _⟩ | ⟨_, e, _⟩ | ⟨q', _, e, hinv, _, _, htr, hlive, _⟩
+  · rw [e] at hnew; cases hnew
+  · rw [e] at hnew; cases hnew
+  · rw [e] at hnew
+    have hq : q' = q0 := Option.some.inj hnew
+    subst hq
+    have hh := history_refines tp grow ops q' (PQueue.new cap exGe t m0).2.2 hinv (by rw [htr]; omega)
+    have hl : 2 ≤ m.liveT q.triple := by
+      show 2 ≤ (PQueue.run cmp grow q' ops (PQueue.new cap exGe t m0).2.2).2.2.liveT (PQueue.run cmp grow q' ops (PQueue.new cap exGe t m0).2.2).2.1.triple
+      rw [hh.2.2.1, hh.2.2.2.1, htr]; omega
+    refine ⟨(push_status_iff tp grow q x m hh.2.1 hl).1, fun hne => ?_⟩
+    rcases PQueue.push_spec tp grow q x m hh.2.1 (by omega) with ⟨e1, _⟩ | ⟨_, e2⟩
+    · exact (hne e1).elim
+    · exact e2
+
 /-- **Refused growth is atomic** in the strongest sense: status `CC_ERR_ALLOC` (or
 `CC_ERR_MAX_CAPACITY`) means that every field of the queue is unchanged -/
-theorem push_refused_inert {cmp : Nat → Nat → Int} (tp : TotalPreorder cmp) (grow : Nat → Nat) (hg : PQueue.GrowOk grow)
-    (q : PQueue) (x : Nat) (m : Mem) (h : PQueue.Inv' cmp q) (hl : 2 ≤ m.live)
+theorem push_refused_inert {cmp : Nat → Nat → Int} (tp : TotalPreorder cmp) (grow : Nat → Nat)
+    (q : PQueue) (x : Nat) (m : Mem) (h : PQueue.Inv' cmp q) (hl : 2 ≤ m.liveT q.triple)
     (hst : (PQueue.push cmp grow q x m).1 ≠ .ok) : (PQueue.push cmp grow q x m).2.1 = q := by
-  rcases PQueue.push_spec tp grow hg q x m h (by omega) with ⟨e1, _⟩ | ⟨_, e2⟩
+  rcases PQueue.push_spec tp grow q x m h (by omega) with ⟨e1, _⟩ | ⟨_, e2⟩
   · exact (hst e1).elim
   · exact e2
+
+/-- `cc_pqueue_pop(pq, NULL)`: the same model function with the store `*out = tmp` skipped — same
+status, same resulting queue, same ledger; only the element is not reported -/
+theorem pop_null_out (cmp : Nat → Nat → Int) (q : PQueue) (m : Mem) :
+    (PQueue.popOut cmp q false m).1 = (PQueue.pop cmp q m).1 ∧ (PQueue.popOut cmp q false m).2.1 = none ∧
+    (PQueue.popOut cmp q false m).2.2 = (PQueue.pop cmp q m).2.2 := PQueue.popOut_false cmp q m
 
 /-- **Pop until empty** (concrete model): from any state satisfying the invariant, `size` pops
 return every held element exactly once, in non-increasing priority order -/
 theorem drain_sorted {cmp : Nat → Nat → Int} (tp : TotalPreorder cmp) (q : PQueue) (h : PQueue.Inv' cmp q) :
     (PQueue.drain cmp q.size q).Perm q.abs ∧ (PQueue.drain cmp q.size q).Pairwise (fun a b => 0 ≤ cmp a b) :=
   PQueue.drain_spec tp q.size q h (Nat.le_refl _)
+
+/-- **End to end**: construct a queue, run *any* history, then pop until empty: the elements that come
+out are in non-increasing priority order and, together with the elements the history's own pops
+returned, they are exactly (as a multiset) the elements the history pushed successfully -/
+theorem new_history_then_drain {cmp : Nat → Nat → Int} (tp : TotalPreorder cmp) (grow : Nat → Nat)
+    (cap : Nat) (exGe : Nat → Bool) (t : Triple) (m0 : Mem) (q0 : PQueue)
+    (hnew : (PQueue.new cap exGe t m0).2.1 = some q0) (ops : List Op) :
+    let r := PQueue.run cmp grow q0 ops (PQueue.new cap exGe t m0).2.2
+    (PQueue.drain cmp r.2.1.size r.2.1 ++ popped ops r.1).Perm (pushed ops r.1) ∧
+    (PQueue.drain cmp r.2.1.size r.2.1).Pairwise (fun a b => 0 ≤ cmp a b) := by
+  intro r
+  have hh := new_history_refines tp grow cap exGe t m0 q0 hnew ops
+  have hd := PQueue.drain_spec tp r.2.1.size r.2.1 hh.2.1 (Nat.le_refl _)
+  have hc := Spec.PQFacts.conservation ops [] r.1 r.2.1.abs hh.1
+  refine ⟨?_, hd.2⟩
+  exact (List.Perm.append_right _ hd.1).trans (by simpa using hc)
 
 /-! ## The property in its own vocabulary (facts about the multiset spec) -/
 
